@@ -287,6 +287,11 @@ def index(v: Val, idx: list, interp=None) -> Val:
         return index_blocks(v, idx)
     if isinstance(v, DiagMat):
         v = densify(v)
+    from .values import VStack
+    if isinstance(v, VStack):
+        r = index_vstack(v, idx, interp)
+        if r is not None:
+            return r
     if isinstance(v, Bag):
         it = idx[0]
         if it[0] in ("int", "expr") and len(idx) == 1:
@@ -412,6 +417,43 @@ def index(v: Val, idx: list, interp=None) -> Val:
     if not axes:
         return Sc(e)
     return Arr(axes, e, v.kind if v.kind == "list" and len(items) == 1 and items[0][0] == "slice" else "nd")
+
+
+def index_vstack(v, idx: list, interp=None) -> Optional[Val]:
+    """rows of a stack keep their place: a row slice that coincides with one part is that part; a row slice that does not
+    line up with the parts (for independent part lengths) mixes rows of different parts — reported as a `straddle` event
+    and represented by an opaque element"""
+    from .values import VStack
+    first, rest = idx[0], idx[1:]
+    if first[0] == "full":
+        parts = [index(p, [("full",)] + rest, interp) for p in v.ordered] if rest else list(v.ordered)
+        if all(isinstance(x, Arr) for x in parts):
+            return VStack(parts)
+        return None
+    if first[0] == "slice" and first[3] is None:
+        lo = first[1] if first[1] is not None else sym.ZERO
+        offs = [sym.ZERO]
+        for p in v.ordered:
+            offs.append(sym.add(offs[-1], p.axes[0][0].size))
+        hi = first[2] if first[2] is not None else offs[-1]
+        for k, p in enumerate(v.ordered):
+            if sym.equal(lo, offs[k]) and sym.equal(hi, offs[k + 1]):
+                return index(p, [("full",)] + rest, interp) if rest else p
+        # several consecutive parts
+        for a in range(len(v.ordered)):
+            for b in range(a + 2, len(v.ordered) + 1):
+                if sym.equal(lo, offs[a]) and sym.equal(hi, offs[b]):
+                    sub = VStack(v.ordered[a:b])
+                    return index_vstack(sub, [("full",)] + rest, interp) if rest else sub
+        if interp is not None:
+            interp.event("straddle", None, lo=lo, hi=hi, offsets=offs, parts=v.ordered)
+        size = sym.sub(hi, lo)
+        iv = fresh()
+        sub = index(v.ordered[0], [("full",)] + rest, interp) if rest else v.ordered[0]
+        tail = list(sub.axes[1:]) if isinstance(sub, Arr) else []
+        e = sym.Opq("straddle", (lo, hi) + tuple(p.elem for p in v.ordered), fresh("s"))
+        return Arr([(rng(size), iv)] + tail, e, "nd")
+    return None
 
 
 def index_blocks(b: Blocks, idx: list) -> Val:
